@@ -1,6 +1,6 @@
 (* Position/Proofs.v — the lemmas that Props/C15.v states, with their non-vacuity examples. *)
 From Verif Require Import Common.Base Common.Tactics Cursor.Model Cursor.Proofs Position.Model Position.Spec
-  Position.Lemmas Position.Total Position.LineCol.
+  Position.Lemmas Position.Total Position.LineCol Position.Context Position.Caret.
 From Coq Require Import ZifyBool.
 
 Section Proofs.
@@ -59,7 +59,6 @@ Section Proofs.
 End Proofs.
 
 (* --- non-vacuity ----------------------------------------------------------------------- *)
-Definition ascii_graphic (r : Z) : bool := (32 <=? r) && (r <=? 126).
 
 (* "a\r\nb" at offset 3 (the 'b'): line 2, column 1 *)
 Example position_example_crlf :
@@ -94,3 +93,34 @@ Qed.
 Example position_clamp_high_nonvacuous :
   position ascii_graphic [97; 10; 98] 4 = position ascii_graphic [97; 10; 98] 3.
 Proof. apply position_clamp_high_proof. cbn. lia. Qed.
+
+(* a line of 100 'a' after "x\n": the three elision regimes and the caret in each *)
+Definition ex_long (n : nat) : list cp := [([120], 120); ([10], 10)] ++ repeat ([97], 97) n.
+Lemma ex_long_ok n : Forall cp_ok (ex_long n).
+Proof. unfold ex_long. apply Forall_app. split; [repeat constructor|apply Forall_repeat; reflexivity]. Qed.
+
+Example context_rear_regime :
+  position ascii_graphic (bytes (ex_long 100)) 12 =
+    Done (2, 11, pad_left 5 [50] ++ [58; 32] ++ repeat 97 57 ++ [46; 46; 46] ++ [10] ++ repeat 32 17 ++ [94]).
+Proof. vm_compute. reflexivity. Qed.
+Example context_both_regime :
+  position ascii_graphic (bytes (ex_long 100)) 52 =
+    Done (2, 51, pad_left 5 [50] ++ [58; 32] ++ [46; 46; 46] ++ repeat 97 41 ++ [46; 46; 46] ++ [10] ++ repeat 32 30 ++ [94]).
+Proof. vm_compute. reflexivity. Qed.
+Example context_front_regime :
+  position ascii_graphic (bytes (ex_long 100)) 102 =
+    Done (2, 101, pad_left 5 [50] ++ [58; 32] ++ [46; 46; 46] ++ repeat 97 44 ++ [10] ++ repeat 32 54 ++ [94]).
+Proof. vm_compute. reflexivity. Qed.
+
+(* the hypotheses of context_caret are met in the "both" regime, by a character that is not graphic *)
+Definition ex_tab : list cp := repeat ([97], 97) 50 ++ [([9], 9)] ++ repeat ([97], 97) 50.
+Example context_caret_nonvacuous :
+  exists l1 n, Forall cp_ok ex_tab /\ located ex_tab 50 (repeat ([97], 97) 50) [([9], 9)] (repeat ([97], 97) 50) /\
+    position ascii_graphic (bytes ex_tab) 50 = Done (1, 51, l1 ++ 10 :: repeat 32 n ++ [94]) /\
+    nth_error l1 n = Some 183.
+Proof.
+  exists (pad_left 5 [49] ++ [58; 32] ++ [46; 46; 46] ++ repeat 97 20 ++ [183] ++ repeat 97 20 ++ [46; 46; 46]), 30%nat.
+  split; [unfold ex_tab; repeat (apply Forall_app; split); try (apply Forall_repeat; reflexivity); repeat constructor|].
+  split; [split; [reflexivity|]; cbn; repeat split; try lia; intros [H _]; discriminate|].
+  split; vm_compute; reflexivity.
+Qed.
